@@ -88,6 +88,15 @@ def run(tier, seed):
                 s.append(line("src", "n%d" % d, sx(doc.encode())))
                 for w in writers: s.append(line("cost", "n%d" % d, docs.FMT[w], docs.STD & ~docs.EXT["SMART"]))
             segs.append(s); meta.append(("nest", dict(gg, o=gg["o"] + " nosmart")))
+    # flat documents of n headings through the packaged formats: their navigation / outline writers walk the heading list with a recursion of their own
+    for hname, hdoc in (("setext1 headings (flat)", lambda n: "A\n==\n\n" * n), ("setext2 headings (flat)", lambda n: "A\n--\n\n" * n), ("atx headings (flat)", lambda n: "# A\n\n" * n),
+                        ("stair headings", lambda n: "".join("#" * (1 + i % 6) + " A\n\n" for i in range(n)))):
+        s = ["seg\tnest", "timeout\t120"]
+        for d in depths:
+            if d > 100000: continue
+            s.append(line("src", "n%d" % d, sx(hdoc(d).encode())))
+            for w in ("epub", "odt", "itmz", "opml"): s.append(line("cost", "n%d" % d, docs.FMT[w], docs.STD))
+        segs.append(s); meta.append(("nest", dict(o=hname, c="", shape="flat")))
     # the edge of the parser's own depth guard: siblings nested right at the limit, the later one much deeper
     s = ["seg\tedge", "timeout\t120"]
     for L in (998, 999, 1000, 1001):
